@@ -1707,13 +1707,16 @@ func (t *tScreen) parseRune(buf *bytes.Buffer, evs *[]Event) (bool, bool) {
 	return true, false
 }
 
-func (t *tScreen) scanInput(buf *bytes.Buffer, expire bool) {
+func (t *tScreen) scanInput(buf *bytes.Buffer, expire bool, stopQ chan struct{}) {
 	evs := t.collectEventsFromInput(buf, expire)
 
 	for _, ev := range evs {
 		select {
 		case t.eventQ <- ev:
 		case <-t.quit:
+			return
+		case <-stopQ:
+			// suspending: do not wait for a consumer that may never come
 			return
 		}
 	}
@@ -1840,7 +1843,7 @@ func (t *tScreen) mainLoop(stopQ chan struct{}) {
 			// This lets us detect conflicts such as a lone ESC.
 			if buf.Len() > 0 {
 				if time.Now().After(t.keyexpire) {
-					t.scanInput(buf, true)
+					t.scanInput(buf, true, stopQ)
 				}
 			}
 			if buf.Len() > 0 {
@@ -1855,7 +1858,7 @@ func (t *tScreen) mainLoop(stopQ chan struct{}) {
 		case chunk := <-t.keychan:
 			buf.Write(chunk)
 			t.keyexpire = time.Now().Add(time.Millisecond * 50)
-			t.scanInput(buf, false)
+			t.scanInput(buf, false, stopQ)
 			if !t.keytimer.Stop() {
 				select {
 				case <-t.keytimer.C:
